@@ -186,6 +186,9 @@ def local_defs(f: FuncInfo) -> dict[str, list[ast.AST]]:
             out.setdefault(n.target.id, []).append(n.value)
         elif isinstance(n, ast.AugAssign) and isinstance(n.target, ast.Name):
             out.setdefault(n.target.id, []).append(n)
+    # definitions in source (execution) order: body_walk's own order is unspecified
+    for k in out:
+        out[k].sort(key=lambda d: getattr(d, "_ord", 0))
     # a name assigned once in each arm of one if/else is a conditional definition
     for n in body_walk(f.node):
         if isinstance(n, ast.If) and len(n.body) == 1 and len(n.orelse) == 1:
